@@ -33,6 +33,10 @@ def apply(root, m):
     if cnt < 1 or (want != "all" and cnt != want):
         raise RuntimeError("mutant %s: pattern occurs %d times in %s (expected %s)" % (m["id"], cnt, m["file"], want))
     src = src.replace(m["old"], m["new"])
+    for old2, new2 in m.get("also", []):      # companion edits in the same file (two cooperating sites)
+        if src.count(old2) != 1:
+            raise RuntimeError("mutant %s: companion pattern occurs %d times" % (m["id"], src.count(old2)))
+        src = src.replace(old2, new2)
     with open(path, "w") as fh:
         fh.write(src)
 
